@@ -3,7 +3,9 @@ package c10
 import (
 	"crypto/x509"
 	"fmt"
+	"math"
 	"math/rand/v2"
+	"strings"
 	"time"
 
 	"github.com/dadrus/heimdall/internal/config"
@@ -13,7 +15,26 @@ import (
 var fixedDeltas = []*int{ip(-3600), ip(-20), ip(-5), ip(3), ip(8), ip(15), ip(60), ip(3600), nil}
 
 // client credentials subtract 5s (not 10s): keep >=3s away from that boundary as well
-var ccFixedDeltas = []*int{ip(-3600), ip(-20), ip(-5), ip(1), ip(2), ip(9), ip(15), ip(60), ip(3600), nil}
+var ccFixedDeltas = []*int{ip(-3600), ip(-20), ip(-5), ip(1), ip(2), ip(9), ip(15), ip(60), ip(3600), nil,
+	// more seconds than a time.Duration can hold (2^63 ns are about 9.2e9 s)
+	ip(-13835058055), ip(13835058055), ip(-9223372037)}
+
+// seconds converts to a duration, saturating far inside the range of time.Duration (so that adding a slack is safe).
+func seconds(n int) time.Duration {
+	const limit = math.MaxInt64 / 4
+	switch {
+	case n > int(limit/int64(time.Second)):
+		return time.Duration(limit)
+	case n < -int(limit/int64(time.Second)):
+		return -time.Duration(limit)
+	}
+	return time.Duration(n) * time.Second
+}
+
+func beyondDurationRange(d *int) bool {
+	const max = int(math.MaxInt64 / int64(time.Second))
+	return d != nil && (*d > max || *d < -max)
+}
 
 // randomDeltas draws expiry deltas (seconds) which stay >=3s away from the given decision boundaries of the code.
 func randomDeltas(rng *rand.Rand, n int, boundaries ...int) []*int {
@@ -257,47 +278,71 @@ func (e *env) generic() {
 }
 
 func (e *env) jwtAuthenticator() {
-	for _, d := range e.deltas("jwt", 0, 10) {
-		for _, m := range modes(ttlOpts, "cache_ttl") {
-			for _, be := range backends() {
-				name := e.next()
-				ov := config.MechanismConfig{"assertions": map[string]any{"issuers": []string{name}}}
-				for k, v := range m.override {
-					ov[k] = v
+	// chains: "auto" alternates between a bare certificate and leaf + root (the leaf expires first); "intermediate" publishes
+	// leaf + intermediate CA where the INTERMEDIATE expires at the delta and the leaf 24h later: the key is unusable as
+	// soon as ANY certificate of its chain has expired
+	for _, chain := range []string{"auto", "intermediate"} {
+		for _, d := range e.deltas("jwt", 0, 10) {
+			if chain == "intermediate" && d == nil {
+				continue
+			}
+			for _, m := range modes(ttlOpts, "cache_ttl") {
+				for _, be := range backends() {
+					name := e.next()
+					ov := config.MechanismConfig{"assertions": map[string]any{"issuers": []string{name}}}
+					for k, v := range m.override {
+						ov[k] = v
+					}
+					a, err := e.a.MF.CreateAuthenticator("", "jwt-"+m.proto, ov)
+					if err != nil {
+						e.fail("create jwt authenticator", err)
+						return
+					}
+					plan := time.Now().Truncate(time.Second)
+					vEnd, _ := expiry(plan, d)
+					var key *ck.SigningKey
+					variant := "jwk-certificate-not-after"
+					if chain == "intermediate" {
+						key, err = e.pki.NewKeyVia("kid-"+name, plan.Add(24*time.Hour), *vEnd)
+						variant = "jwk-certificate-chain-intermediate-expires-first"
+						e.r.Count("jwk_with_certificate_chain_intermediate_expires_first", 1)
+					} else {
+						key, err = e.pki.NewKey("kid-"+name, vEnd)
+					}
+					if err != nil {
+						e.fail("issue certificate", err)
+						return
+					}
+					if chain == "auto" && key.Cert != nil && e.nonce%2 == 0 {
+						// x5c chain: the leaf expires at vEnd, its issuer (the root, valid for 48h) much later
+						key.Chain = []*x509.Certificate{e.pki.CA.Certificate}
+						variant = "jwk-certificate-chain-leaf-expires-first"
+						e.r.Count("jwk_with_certificate_chain", 1)
+					}
+					e.srv.RegisterJWKS(name, ck.JWKS(key))
+					tok, err := key.SignJWT(map[string]any{"iss": name, "sub": "carol", "exp": plan.Add(2 * time.Hour).Unix(), "iat": plan.Add(-30 * time.Second).Unix()})
+					if err != nil {
+						e.fail("sign jwt", err)
+						return
+					}
+					sp := spec{mech: "jwt_authenticator", ttl: m.ttl, vEnd: vEnd, leeway: 0, codeLeeway: 10 * time.Second, defaultTTL: 10 * time.Minute}
+					rec := &caseRec{Mechanism: sp.mech, Backend: be, TTL: m.ttl.Name, TTLMode: m.mode, Delta: deltaName(d), Variant: variant,
+						Plan: plan, ValidityEnd: vEnd, Leeway: "0s", CodeLeeway: "10s", Config: map[string]any{"prototype": "jwt-" + m.proto, "override": ov}}
+					st := ck.Step{Req: ck.Req{Headers: map[string]string{"Authorization": "Bearer " + tok}}}
+					e.runPhases(rec, e.cache(be), advanceFor(sp), func(c *ck.RecCache) ck.Outcome { return ck.RunAuthn(a, st, c) })
+					judge(sp, rec)
+					if chain == "intermediate" {
+						// kept / used beyond the validity of a certificate of the chain which is not the leaf
+						for i, f := range rec.Findings {
+							for _, pre := range []string{"stored-beyond-validity:", "hit-after-validity:", "ttl-fallback-when-remaining-lifetime-within-leeway:"} {
+								if strings.HasPrefix(f.Signature, pre) {
+									rec.Findings[i].Signature = "stored-beyond-validity-of-chain-certificate:" + sp.mech
+								}
+							}
+						}
+					}
+					e.report(rec, rec.Phases[0].Outcome.Err == "" && (vEnd != nil || m.ttl.Set))
 				}
-				a, err := e.a.MF.CreateAuthenticator("", "jwt-"+m.proto, ov)
-				if err != nil {
-					e.fail("create jwt authenticator", err)
-					return
-				}
-				plan := time.Now().Truncate(time.Second)
-				vEnd, _ := expiry(plan, d)
-				key, err := e.pki.NewKey("kid-"+name, vEnd)
-				if err != nil {
-					e.fail("issue certificate", err)
-					return
-				}
-				variant := "jwk-certificate-not-after"
-				if key.Cert != nil && e.nonce%2 == 0 {
-					// x5c chain: the leaf expires at vEnd, its issuer (the root, valid for 48h) much later;
-					// the key is unusable as soon as ANY certificate of its chain has expired
-					key.Chain = []*x509.Certificate{e.pki.CA.Certificate}
-					variant = "jwk-certificate-chain-leaf-expires-first"
-					e.r.Count("jwk_with_certificate_chain", 1)
-				}
-				e.srv.RegisterJWKS(name, ck.JWKS(key))
-				tok, err := key.SignJWT(map[string]any{"iss": name, "sub": "carol", "exp": plan.Add(2 * time.Hour).Unix(), "iat": plan.Add(-30 * time.Second).Unix()})
-				if err != nil {
-					e.fail("sign jwt", err)
-					return
-				}
-				sp := spec{mech: "jwt_authenticator", ttl: m.ttl, vEnd: vEnd, leeway: 0, codeLeeway: 10 * time.Second, defaultTTL: 10 * time.Minute}
-				rec := &caseRec{Mechanism: sp.mech, Backend: be, TTL: m.ttl.Name, TTLMode: m.mode, Delta: deltaName(d), Variant: variant,
-					Plan: plan, ValidityEnd: vEnd, Leeway: "0s", CodeLeeway: "10s", Config: map[string]any{"prototype": "jwt-" + m.proto, "override": ov}}
-				st := ck.Step{Req: ck.Req{Headers: map[string]string{"Authorization": "Bearer " + tok}}}
-				e.runPhases(rec, e.cache(be), advanceFor(sp), func(c *ck.RecCache) ck.Outcome { return ck.RunAuthn(a, st, c) })
-				judge(sp, rec)
-				e.report(rec, rec.Phases[0].Outcome.Err == "" && (vEnd != nil || m.ttl.Set))
 			}
 		}
 	}
@@ -397,8 +442,9 @@ func (e *env) clientCredentials() {
 						return
 					}
 					var rel *time.Duration
-					if d != nil {
-						v := time.Duration(*d) * time.Second
+					if d != nil && !(beyondDurationRange(d) && *d > 0) {
+						// (a token living longer than a time.Duration can express has no expiry the cache could exceed)
+						v := seconds(*d)
 						rel = &v
 					}
 					sp := spec{mech: "client_credentials", ttl: m.ttl, relExpiry: rel, codeLeeway: 5 * time.Second}
@@ -407,6 +453,16 @@ func (e *env) clientCredentials() {
 					st := ck.Step{Subject: &ck.SubjectSpec{ID: "erin"}}
 					e.runPhases(rec, e.cache(be), advanceFor(sp), func(c *ck.RecCache) ck.Outcome { return ck.RunExec(x, st, c) })
 					judge(sp, rec)
+					if beyondDurationRange(d) {
+						e.r.Count("client_credentials_expires_in_beyond_duration_range", 1)
+						for i, f := range rec.Findings {
+							for _, pre := range []string{"stored-beyond-validity:", "hit-after-validity:", "ttl-fallback-when-remaining-lifetime-within-leeway:"} {
+								if strings.HasPrefix(f.Signature, pre) {
+									rec.Findings[i].Signature = "expires-in-beyond-duration-range-wraps:" + sp.mech
+								}
+							}
+						}
+					}
 					e.report(rec, rec.Phases[0].Outcome.Err == "" && (rel != nil || m.ttl.Set))
 				}
 			}
